@@ -21,9 +21,19 @@ sh(f"git apply {diff}", wt)
 needs_build = any(l.startswith("+++ b/") and l.strip().endswith((".c", ".h")) for l in open(diff))
 if needs_build: sh("/venv/bin/python setup.py build_ext -i", wt)
 rc1, o1 = sh(f"/venv/bin/python out/demo{n}.py", wt, 600); res["demo_fails_with_change"] = rc1 != 0
+TESTS = "psutil/tests/test_linux.py psutil/tests/test_process.py psutil/tests/test_system.py psutil/tests/test_misc.py psutil/tests/test_posix.py psutil/tests/test_contracts.py"
+def tests():
+    rc, o = sh(f"/venv/bin/python -m pytest -q -p no:cacheprovider --timeout=300 {TESTS} 2>&1 | grep -E '^(FAILED|ERROR)|passed|failed' | sed 's/ - .*//'", wt, 1800)
+    lines = o.strip().splitlines()
+    return sorted(l for l in lines if l.startswith(("FAILED", "ERROR"))), (lines[-1] if lines else "")
+tw = tests()
 sh("git checkout -- psutil", wt)
 if needs_build: sh("/venv/bin/python setup.py build_ext -i", wt)
 rc2, o2 = sh(f"/venv/bin/python out/demo{n}.py", wt, 600); res["demo_passes_without_change"] = rc2 == 0
+two = tests()
+res["tests_with_change"] = dict(failed=tw[0], summary=tw[1]); res["tests_without_change"] = dict(failed=two[0], summary=two[1])
+res["suite_subset_same_with_and_without"] = tw[0] == two[0]
+res["tests_files"] = TESTS
 res["demo_output_with_change"] = o1[-600:]
 # checks against the change
 rc, o = sh(f"git -C /repo apply {diff}")
